@@ -483,8 +483,12 @@ def parse_features(feature_files, language=None):
             assert isinstance(location, string_types)
             location = FileLocation(os.path.normpath(location))
 
-        if location.filename == scenario_collector.filename:
-            scenario_collector.add_location(location)
+        if (scenario_collector.filename and
+                os.path.abspath(location.filename) ==
+                os.path.abspath(scenario_collector.filename)):
+            # -- SAME FEATURE FILE (maybe spelled differently: "./x", "dir/../x", abspath)
+            same_location = FileLocation(scenario_collector.filename, location.line)
+            scenario_collector.add_location(same_location)
             continue
         if scenario_collector.feature:
             # -- NEW FEATURE DETECTED: Add current feature.
